@@ -16,6 +16,15 @@ Proof. destruct cid; reflexivity. Qed.
 Lemma K_par_is_cached_differs b : par_is_cached_differs b = b.
 Proof. reflexivity. Qed.
 
+(* what is stored in / read back from the caches: each keyword of the _create_cache
+   calls carries the variable of the same name (the hand model stores exactly these) *)
+Lemma K_cache_store {T} (N : Num T) (id : Z) (x : T) :
+  lin_cache_store_id id = id /\ lin_cache_store_x0 N x = x /\ lin_cache_store_m N x = x /\ lin_cache_store_b N x = x /\
+  par_cache_store_id id = id /\ par_cache_store_x1 N x = x /\ par_cache_store_M1 N x = x /\
+  par_cache_store_a N x = x /\ par_cache_store_b N x = x /\
+  lin_cache_read_m N x = x /\ lin_cache_read_b N x = x.
+Proof. repeat split. Qed.
+
 Section CallStruct.
   Context {T : Type} (N : Num T).
 
